@@ -176,6 +176,14 @@ where
     });
     out.obs1("commit", "S", cm.class());
     out.obs1("commit_rng_bytes", "N", crng.bytes.to_string());
+    {
+        // field draws of the committer's RNG, replayed for the model (tape) and counted
+        let mut need = 8usize;
+        for i in 0..n { need += 2 * (opt_usize(c.str1(&format!("hiding.{}", i))).unwrap_or(0) + 3); }
+        let (tape, cum) = replay(c.u64_1("commit_seed"), need.min(4096), |r| <A::F as ark_std::UniformRand>::rand(r));
+        out.input("ctape", &fs_to_strs(&tape));
+        out.obs1("commit_draws", "N", draws_of(&cum, crng.bytes).to_string());
+    }
     let (comms, states) = match cm.ok() { Some(x) => x, None => return };
     for i in 0..n {
         let b = ser(comms[i].commitment());
@@ -296,6 +304,13 @@ where
         out.obs(&format!("vlog.{}", t), "S", &{ let s = vs.summary(vstart); if s.is_empty() { vec!["-".into()] } else { s } });
         out.input(&format!("chal.{}", t), &ps.challenges(pstart));
         out.input(&format!("vchal.{}", t), &vs.challenges(vstart));
+        out.obs1(&format!("nchal.{}", t), "N", ps.challenges(pstart).len().to_string());
+        out.obs1(&format!("nvchal.{}", t), "N", vs.challenges(vstart).len().to_string());
+        {
+            let (vt, vcum) = replay(cseed, 12, |r| { let x: A::F = <u128 as ark_std::UniformRand>::rand(r).into(); x });
+            out.input(&format!("vtape.{}", t), &fs_to_strs(&vt));
+            out.obs1(&format!("check_draws.{}", t), "N", draws_of(&vcum, vrng.bytes).to_string());
+        }
         // lock-step: one more squeeze on copies of both sponges
         let a: Vec<A::F> = ps.clone().inner.squeeze_field_elements(1);
         let b: Vec<A::F> = vs.clone().inner.squeeze_field_elements(1);
@@ -312,6 +327,7 @@ where
         if t >= recs.len() { out.obs1(&name, "S", "skipped".into()); continue; }
         let rec = &recs[t];
         let mut vs2 = rec.vsponge_before.clone();
+        let vs2_start = vs2.log.len();
         let mut vrng = CountingRng::new(rec.check_seed);
         let mut cms: Vec<LabeledCommitment<Cm<A>>> = comms.clone();
         let mut skipped = false;
@@ -341,6 +357,7 @@ where
                 if skipped { out.obs1(&name, "S", "skipped".into()); continue; }
                 let d = guard_any(|| A::PC::check(&vk, sel.iter().map(|i| &cms[*i]), &pts[pj], values.clone(), &pf, &mut vs2, Some(&mut vrng)));
                 out.obs1(&name, "S", decision(&d));
+                out.input(&format!("mchal.{}", m), &vs2.challenges(vs2_start));
             }
             "batch" => {
                 let bp = match &rec.bproof { Some(p) => p.clone(), None => { out.obs1(&name, "S", "skipped".into()); continue; } };
@@ -391,6 +408,7 @@ where
                 if skipped { out.obs1(&name, "S", "skipped".into()); continue; }
                 let d = guard_any(|| A::PC::batch_check(&vk, vperm.iter().map(|i| &cms[*i]), &qs, &evals, &bp2, &mut vs2, &mut vrng));
                 out.obs1(&name, "S", decision(&d));
+                out.input(&format!("mchal.{}", m), &vs2.challenges(vs2_start));
             }
             "lc" => {
                 let mut lp = match &rec.lcproof { Some(p) => p.clone(), None => { out.obs1(&name, "S", "skipped".into()); continue; } };
@@ -438,6 +456,7 @@ where
                 if skipped { out.obs1(&name, "S", "skipped".into()); continue; }
                 let d = guard_any(|| A::PC::check_combinations(&vk, lcv.iter(), rec.vperm.iter().map(|i| &cms[*i]), &qs, &evals, &lp, &mut vs2, &mut vrng));
                 out.obs1(&name, "S", decision(&d));
+                out.input(&format!("mchal.{}", m), &vs2.challenges(vs2_start));
             }
             _ => out.obs1(&name, "S", "skipped".into()),
         }
